@@ -52,6 +52,9 @@ pub struct Session {
     pub router_states: RouterStates,
     pub router_info: RouterInfos,
     state_machine: Arc<Mutex<Option<BmpState>>>,
+    /// The per-router state machine metrics handed to the handler (parse
+    /// error counters, unknown-peer counter, ...).
+    pub bmp_metrics: Arc<BmpStateMachineMetrics>,
 }
 
 impl Session {
@@ -114,7 +117,7 @@ impl Session {
             Default::default(),
             Default::default(),
             None,
-            bmp_metrics,
+            bmp_metrics.clone(),
         );
 
         let session = Session {
@@ -130,6 +133,7 @@ impl Session {
             router_states,
             router_info,
             state_machine,
+            bmp_metrics,
         };
         (session, gate)
     }
@@ -192,6 +196,17 @@ impl Session {
         use crate::metrics::{OutputFormat, Source, Target};
         let mut target = Target::new(OutputFormat::Prometheus);
         self.metrics.append("verif", &mut target);
+        target.into_string()
+    }
+
+    /// The state machine's per-router metrics in Prometheus text format
+    /// (`bmp_state_num_unprocessable_bmp_messages`,
+    /// `bmp_state_num_bgp_updates_reparsed_due_to_incorrect_header_flags`,
+    /// `bmp_state_num_bmp_route_monitoring_msgs_with_unknown_peer`, ...).
+    pub fn bmp_metrics_text(&self) -> String {
+        use crate::metrics::{OutputFormat, Source, Target};
+        let mut target = Target::new(OutputFormat::Prometheus);
+        self.bmp_metrics.append("verif", &mut target);
         target.into_string()
     }
 }
